@@ -3,7 +3,7 @@
 EXTENDS Sched
 MC_DagEmptyAll  == DagConfigs(Outcomes, {"ABSENT"})
 MC_DagEmpty3    == DagConfigs({"ok", "fail", "raise"}, {"ABSENT"})
-MC_DagEmptyMal  == DagConfigs({"ok", "none", "notpair", "badstatus", "badupdate"}, {"ABSENT"})
+MC_DagEmptyMal  == DagConfigs({"ok", "none", "notpair", "badstatus", "badupdate", "nonfinal"}, {"ABSENT"})
 MC_DagInit      == DagConfigs({"ok", "fail"}, Inits)
 MC_DagInitDone  == DagConfigs({"ok", "fail"}, {"ABSENT", "DONE"})
 MC_AnyEmpty     == AnyConfigs({"ok", "fail"}, {"ABSENT"})
